@@ -12,11 +12,15 @@ package sender
 //@   requires s != nil && conn != nil && s.Logger != nil && (stream != nil ==> stream.Cb != nil)
 //@   ensures  calls(Cb) == old(calls(Cb)) + owed(stream) + (received(s.Sink) - old(received(s.Sink))) - owed(result0)
 //@   ensures  result0 != nil ==> result0.Cb != nil
+//@   ensures  [errors] result0 != nil ==> result2 != nil
+//@   callsite Cb requires caller(param(stream)) != nil && calls(Cb) == old(calls(Cb)) && caller(streamCount) == 0 ==> errs == caller(param(errs))
 //@   ensures  s.Logger == old(s.Logger) && s.ConnFactory == old(s.ConnFactory) && s.Sink == old(s.Sink)
 //@   recvsite assumes [sender.Stream] delivered ==> (val.Cb != nil)
 //@   recvsite assumes [bytes.Buffer] delivered ==> (val != nil)
 //@   loop 1 invariant param(s) != nil && conn != nil && param(s).Logger != nil && (stream != nil ==> stream.Cb != nil) && param(s).Sink == old(param(s).Sink)
 //@   loop 1 invariant calls(Cb) == old(calls(Cb)) + old(owed(stream)) + (received(param(s).Sink) - old(received(param(s).Sink))) - owed(stream)
+//@   loop 1 invariant err == nil && 0 <= streamCount && (streamCount > 0 ==> stream == nil) && (calls(Cb) == old(calls(Cb)) && streamCount == 0 ==> errs == param(errs) && stream == param(stream))
+//@   loop 2 invariant err == nil && (calls(Cb) == old(calls(Cb)) && streamCount == 0 && param(stream) != nil ==> errs == param(errs))
 //@   loop 2 invariant param(s) != nil && conn != nil && param(s).Logger != nil && stream != nil && stream.Cb != nil && param(s).Sink == old(param(s).Sink)
 //@   loop 2 invariant calls(Cb) == old(calls(Cb)) + old(owed(stream)) + (received(param(s).Sink) - old(received(param(s).Sink))) - 1
 //@   modifies everything, calls(Cb), received
@@ -33,8 +37,13 @@ package sender
 // Run: over its whole life the sender calls Cb exactly once for every stream it takes from the sink -- on success,
 // after a failed connection once the stream's own context is done, when the sender is stopped (deferred call),
 // and for the streams still queued at shutdown (cleanup).
+// The errors a pending stream has met travel with it: the list handed to innerRun (which answers the pending stream
+// with it) is never shorter than the list accumulated when this round of the loop began, a stream that comes back
+// from innerRun unfinished comes back with the write error (appended by Run), and a stream cancelled while the
+// connection is down is answered with at least its context's error.
 //@ func (*Sender).Run
 //@   requires s != nil && s.Logger != nil && s.ConnFactory != nil
+//@   callsite innerRun requires len(errs) >= len(prev(caller(errs)))
 //@   recvsite assumes [sender.Stream] delivered ==> (val.Cb != nil)
 //@   ensures  calls(Cb) - old(calls(Cb)) == received(s.Sink) - old(received(s.Sink))
 //@   loop 1 invariant s.Logger != nil && s.ConnFactory != nil && s.Sink == old(s.Sink) && (stream != nil ==> stream.Cb != nil)
